@@ -48,6 +48,64 @@ def _run_shard(args):
     return r
 
 
+def _child(conn, pid, shard):
+    r = _run_shard((pid, shard))
+    try:
+        conn.send(r)
+    except Exception as e:  # unpicklable payload: send a reduced record
+        r2 = {k: v for k, v in r.items() if k not in ("samples", "violations", "crashes")}
+        r2.update(samples=[], violations=[], crashes=[], error=f"result not serialisable: {e}")
+        conn.send(r2)
+    conn.close()
+
+
+def _dead(shard, why):
+    return dict(paths=0, ok=0, unknown=0, ignored=0, exhausted=False, violations=[], crashes=[], witnesses={}, samples=[],
+                forall_queries=0, decisions=0, cpu_s=0, solver_queries=0, solver_s=0, solver_unknown=0, realizations={},
+                error=why, shard=shard["name"], engine=shard.get("engine", "symex"), wall_s=0)
+
+
+def _run_all(pid, shards, jobs):
+    """One forked process per shard, at most `jobs` at a time; a shard that dies or overruns 3x its budget
+    (+60 s) is reported as a harness error instead of hanging the run."""
+    ctxm = mp.get_context("fork")
+    pending = list(shards)
+    running = []  # (proc, conn, shard, t0)
+    results = []
+    while pending or running:
+        while pending and len(running) < jobs:
+            sh = pending.pop(0)
+            parent, child = ctxm.Pipe(duplex=False)
+            p = ctxm.Process(target=_child, args=(child, pid, sh), daemon=True)
+            p.start()
+            child.close()
+            running.append((p, parent, sh, time.time()))
+        time.sleep(0.05)
+        still = []
+        for p, conn, sh, t0 in running:
+            got = None
+            try:
+                if conn.poll():
+                    got = conn.recv()
+            except (EOFError, OSError):
+                got = _dead(sh, f"shard process died (exit code {p.exitcode})")
+            if got is None and not p.is_alive():
+                try:
+                    got = conn.recv() if conn.poll(0.2) else _dead(sh, f"shard process died (exit code {p.exitcode})")
+                except (EOFError, OSError):
+                    got = _dead(sh, f"shard process died (exit code {p.exitcode})")
+            if got is None and time.time() - t0 > 3 * sh.get("budget", 60) + 60:
+                p.kill()
+                got = _dead(sh, "shard overran 3x its budget and was killed (a path did not return)")
+            if got is None:
+                still.append((p, conn, sh, t0))
+            else:
+                results.append(got)
+                p.join(timeout=1)
+        running = still
+    return results
+
+
 def known_findings():
     path = os.path.join(ROOT, "known_findings.txt")
     out = []
@@ -80,7 +138,8 @@ def write_replay(pid, shard, case, kind):
 
 def run_replay(path, timeout=300):
     """Re-run the recorded counterexample on the real code in a clean interpreter."""
-    env = dict(os.environ, PYTHONPATH=f"{ROOT}:/repo", PYTHONDONTWRITEBYTECODE="1")
+    repo = os.environ.get("VERIF_REPO", "/repo")  # /repo unless a scratch copy is being tested (mutation self-test)
+    env = dict(os.environ, PYTHONPATH=f"{ROOT}:{repo}", PYTHONDONTWRITEBYTECODE="1")
     try:
         p = subprocess.run([REPLAY_PY, "-m", "vf.replay", path], cwd=ROOT, env=env, capture_output=True, text=True,
                            timeout=timeout)
@@ -118,12 +177,8 @@ def main(pid, tier, seed, jobs=None):
     names = [s["name"] for s in shards]
     assert len(set(names)) == len(names), "duplicate shard names"
     jobs = jobs or int(os.environ.get("VERIF_JOBS", "16"))
-    ctxm = mp.get_context("fork")
-    results = []
     order = sorted(range(len(shards)), key=lambda i: -shards[i].get("budget", 60))
-    with ctxm.Pool(processes=min(jobs, max(1, len(shards))), maxtasksperchild=1) as pool:
-        for r in pool.imap_unordered(_run_shard, [(pid, shards[i]) for i in order], chunksize=1):
-            results.append(r)
+    results = _run_all(pid, [shards[i] for i in order], jobs)
     by_name = {s["name"]: s for s in shards}
     results.sort(key=lambda r: names.index(r["shard"]))
 
@@ -216,8 +271,11 @@ def main(pid, tier, seed, jobs=None):
     ev = dict(property_id=pid, tier=tier, seed=seed, level=level, coverage=coverage,
               assumptions=list(getattr(mod, "ASSUMPTIONS", [])) + list(_shims_used(results)),
               wall_s=round(time.time() - t0, 2), violations=len(violations))
-    os.makedirs(os.path.join(ROOT, "evidence"), exist_ok=True)
-    with open(os.path.join(ROOT, "evidence", f"{pid}.json"), "w") as f:
+    evdir = os.path.join(ROOT, "evidence")
+    if os.environ.get("VERIF_REPO"):  # mutation self-test on a scratch copy: do not overwrite the real evidence
+        evdir = os.path.join(os.environ["VERIF_REPO"], ".verif-evidence")
+    os.makedirs(evdir, exist_ok=True)
+    with open(os.path.join(evdir, f"{pid}.json"), "w") as f:
         json.dump(ev, f, indent=1, default=str)
 
     for k in known_hits:
